@@ -215,7 +215,7 @@ CLAIMS = {
             "were registered as answer keys before solve(), derived expressions are never returned; (IDX-1) no computed index or "
             "slice bound is negative at any subscript (a silent wrap to the far edge: the 'clue in the first row/column' failure); "
             "(IDX-2 / DK) nothing raises: out-of-range subscripts and shape mismatches from exchanged height/width roles surface "
-            "on at least one orientation. (PZ-X) For thirty puzzles whose published rules fit in a few lines (simpleloop on instances whose pivot entry is consistent, magnets, nanro, nurimaze, slalom, heyawake, akari, "
+            "on at least one orientation. (PZ-X) For all thirty-one puzzles (firefly, simpleloop on instances whose pivot entry is consistent, magnets, nanro, nurimaze, slalom, heyawake, akari, "
             "nurikabe, norinori, yinyang, creek, star_battle, slitherlink, masyu, gokigen, aquarium, yajilin, putteria, fillomino, lits, building, doppelblock, compass, geradeweg, view, fivecells, nurimisaki, castle_wall, shakashaka; "
             "sudoku of order 2 and 3 through constraint-wise soundness plus pairwise refutation) the constraints the solver posts "
             "on tiny instances (three stacked rooms, clues on edges, 1xN boards, non-convex tanks, rooms whose cells are listed backwards) are decided for EVERY assignment "
@@ -223,7 +223,7 @@ CLAIMS = {
             "operators, whose meaning C04-C07 tie to the rank encodings) and the admitted answers must equal the grids that obey the "
             "rules as transcribed in sa/rules/pzx.py; with C02 this gives the property's statement on those instances."
         ),
-        note="Trusted: the abstract evaluator; the fixture recipes in sa/rules/c11.py (problem formats read from each module); the rule transcriptions in sa/rules/pzx.py. For solve_firefly (outside PZ-X), and for boards larger than 13 answer variables, what is constrained is not compared with the puzzle's rules. In the PZ-X world active_vertices_connected(acyclic=True) and the graph form of division_connected_variable_groups are replaced by definitional stand-ins (their rank encodings are what C04 / C07 decide).",
+        note="Trusted: the abstract evaluator; the fixture recipes in sa/rules/c11.py (problem formats read from each module); the rule transcriptions in sa/rules/pzx.py. For boards larger than 13 answer variables, what is constrained is not compared with the puzzle's rules. In the PZ-X world active_vertices_connected(acyclic=True) and the graph form of division_connected_variable_groups are replaced by definitional stand-ins (their rank encodings are what C04 / C07 decide).",
         technique="static analysis: abstract evaluation of constraint construction with strict index tracking and answer-key typestate (ast)",
         ref="DESIGN.md §3 C11",
     ),
